@@ -13,7 +13,9 @@
 //!    configuration alone");
 //!  * ground truth: method/uri/version/peer/headers in each dump equal the request that was sent;
 //!  * release: the number of live request-extension values equals the number inserted into
-//!    requests that still have a live handle (book-keeping of the harness itself).
+//!    requests that still have a live handle; connection data lives exactly as long as its
+//!    connection or a request of it; application data lives exactly as long as the service or a
+//!    request handle (book-keeping of the harness itself).
 use std::{
     cell::{Cell, RefCell},
     collections::{BTreeMap, BTreeSet},
@@ -60,7 +62,7 @@ impl Drop for Alive {
 struct E1(u32, #[allow(dead_code)] Alive);
 struct E2(u32, #[allow(dead_code)] Alive);
 struct E3(u32, #[allow(dead_code)] Alive);
-struct DA(u32);
+struct DA(u32, #[allow(dead_code)] Option<Alive>);
 struct DB(u32);
 struct DC(u32);
 pub struct ConnProbe(pub u32, #[allow(dead_code)] Alive);
@@ -79,6 +81,7 @@ struct Shared {
     stash: RefCell<BTreeMap<u32, HttpRequest>>,
     ext_alive: Rc<Cell<isize>>,
     conn_alive: Rc<Cell<isize>>,
+    app_alive: Rc<Cell<isize>>,
 }
 
 fn insert_ext(req: &HttpRequest, alive: &Rc<Cell<isize>>, t: u32, v: u32) {
@@ -184,7 +187,7 @@ fn build_app(
 > {
     let mw = sh.clone();
     App::new()
-        .app_data(DA(0))
+        .app_data(DA(0, Some(Alive::new(&sh.app_alive))))
         .wrap_fn(move |req: ServiceRequest, srv| {
             let sh = mw.clone();
             sh.dumps.borrow_mut().push(dump(req.request()));
@@ -199,7 +202,7 @@ fn build_app(
         .service(web::resource("/u/{id}").name("user").app_data(DB(1)).to(h!(sh)))
         .service(
             web::scope("/s/{sid}")
-                .app_data(DA(2))
+                .app_data(DA(2, None))
                 .app_data(DC(2))
                 .service(web::resource("/r/{rid}").name("sr").to(h!(sh)))
                 .service(
@@ -402,7 +405,7 @@ fn slot_token(sh: &Shared, tok: &Tok) -> Option<String> {
     })
 }
 
-type Outs = Vec<(String, isize, isize)>;
+type Outs = Vec<(String, isize, isize, isize)>;
 
 /// mode `svc`: outputs of one history on one fresh `test::init_service` instance:
 /// per token (text, live ext values, live conn data)
@@ -439,7 +442,7 @@ async fn run_history_svc(toks: &[Tok]) -> Outs {
             Tok::Q(_) => "ok".to_owned(),
             other => slot_token(&sh, other).unwrap(),
         };
-        outs.push((text, sh.ext_alive.get(), sh.conn_alive.get()));
+        outs.push((text, sh.ext_alive.get(), sh.conn_alive.get(), sh.app_alive.get()));
     }
     // release everything before the runtime goes away
     sh.stash.borrow_mut().clear();
@@ -533,7 +536,7 @@ async fn run_history_h1(toks: &[Tok]) -> Outs {
             }
             other => slot_token(&sh, other).unwrap(),
         };
-        outs.push((text, sh.ext_alive.get(), sh.conn_alive.get()));
+        outs.push((text, sh.ext_alive.get(), sh.conn_alive.get(), sh.app_alive.get()));
     }
     sh.stash.borrow_mut().clear();
     for (_, c) in std::mem::take(&mut conns) {
@@ -738,6 +741,13 @@ fn run(line: &str) -> CaseResult {
             b.max_live = b.max_live.max(live);
             // release oracle
             let want = b.expected_alive();
+            let awant = (b.alive_svc || live > 0) as isize;
+            if outs[j].3 != awant && fails.iter().all(|f| f.0 != "app-data-release") {
+                fails.push((
+                    "app-data-release".into(),
+                    format!("after token {j}: application data alive={} although service alive={} and {} requests have a live handle", outs[j].3, b.alive_svc, live),
+                ));
+            }
             let cwant = b.expected_conn_alive();
             if h1 && outs[j].2 != cwant && fails.iter().all(|f| f.0 != "conn-data-release") {
                 fails.push((
@@ -774,7 +784,7 @@ fn run(line: &str) -> CaseResult {
         }
         (outs, fails, b)
     });
-    let output: Vec<String> = outs.iter().map(|o| format!("{}#{},{}", o.0, o.1, o.2)).collect();
+    let output: Vec<String> = outs.iter().map(|o| format!("{}#{},{},{}", o.0, o.1, o.2, o.3)).collect();
     let mut tags = Vec::new();
     if book.reuse {
         tags.push("reuse".to_owned());
